@@ -27,9 +27,8 @@ Kept away from ambiguity (the property only speaks about well-formed constructs)
     five apostrophes (three-w-two-w-five, five-w-two-w-three, five-w-five).  Two spans never follow each other without a word between;
   * list items, headings, cells written on one line contain no newline; a colon appears in a list line only as THE separator of
     a one-line definition item (prefix ending in ';', colon at top level of the line, no colon in the term outside link targets,
-    urls and refs); the line after such an item does not extend its prefix (mwlib puts that sub-list into the term, i.e. BEFORE
-    the description: reported separately); list prefixes change only in ways whose MediaWiki meaning is the prefix tree
-    (see `denote_list`);
+    urls and refs); a line after such an item that extends its prefix ("; t : d" then ";* x") is a sub-list of the description;
+    list prefixes change only in ways whose MediaWiki meaning is the prefix tree (see `denote_list`);
   * tables: every row starts with an explicit |- line; cell bodies with blocks start on their own line;
   * no links inside links, no refs inside refs, no ext-link label containing ']'."""
 
@@ -128,8 +127,6 @@ class Gen:
             else:
                 lines.append((prefix, self.inline(1, allow_ref=rng.random() < 0.3), None))
             r = rng.random()
-            if defn and r < 0.3:
-                r = 0.9         # the line after a one-line definition item never extends its prefix
             if r < 0.3 and len(prefix) < maxdepth:
                 prefix = prefix + rng.choice("*#:" if rng.random() < 0.8 else "*#:;")
             elif r < 0.5 and len(prefix) > 1:
@@ -311,11 +308,9 @@ KIND = {"*": "ul", "#": "ol", ";": "dt", ":": "dd"}
 
 
 def _dd(line):
-    """splitdl (core.py:389): a line '; term : desc' whose prefix is exactly ';' -> (line without description, [dd node])"""
-    p, inl, d = line
-    if p == ";" and d is not None:
-        return (p, inl, None), [["N", ["dd"], den_inline(d, False, False)]]
-    return line, []
+    """splitdl (core.py:393): the description of a line '; term : desc' whose prefix is exactly ';', else None"""
+    p, _inl, d = line
+    return d if p == ";" else None
 
 
 def denote_list(lines):
@@ -331,18 +326,23 @@ def denote_list(lines):
         kind = KIND[p0]
         items = []
         while i < n and lines[i][0][0] == p0:
-            first, dd = _dd(lines[i])
-            sub = [first]
+            desc = _dd(lines[i])
+            sub = [lines[i]]
             i += 1
             while i < n and lines[i][0][0] == p0 and len(lines[i][0]) > 1:
                 sub.append(lines[i])
                 i += 1
+            if desc is not None:
+                # the term keeps the text before the colon; the description node holds the text after it, followed by the
+                # sub-lists of the lines the item swallowed (core.py:540-543): everything stays in source order
+                out.append(["N", ["dt"], den_inline(sub[0][1], False, False)])
+                out.append(["N", ["dd"], den_inline(desc, False, False) + den_item(sub[1:])])
+                continue
             body = den_item(sub)
             if p0 in "*#":
                 items.append(["N", ["li"], body])
             else:
                 out.append(["N", [kind], body])
-                out.extend(dd)
         if p0 in "*#":
             out.append(["N", [kind], items])
     return out
